@@ -111,25 +111,26 @@ static void check_decode(const Msg &m, const ref::bytes &rb, const std::string &
     if(itr_ok && yielded != n) fail("count_vs_iterator", tags, desc, fmt("narguments=%u iterator=%zu", n, yielded), "equal");
 }
 
+static char *g_arena = (char *)calloc(1, 1 << 18);
+static size_t g_arena_last = 0, g_arena_n = 0;
 // Accessors are functions of the message bytes alone: a buffer that is reused for one message after the
 // other, read in any order, must give the same answers as a fresh buffer read front to back.
 static void check_history_independence(const Msg &m, const ref::bytes &rb, const std::string &desc0, const std::vector<std::string> &tags, uint64_t seed)
 {
-    static char *arena = (char *)calloc(1, 1 << 18);
     if(rb.size() + 8 > (1u << 18) || m.vals.empty()) return;
-    size_t off = (seed >> 20) % 2 ? 0 : 4 * ((seed >> 24) % 3);     // mostly the very same address as the previous message
-    memcpy(arena + off, rb.data(), rb.size());
-    memset(arena + off + rb.size(), 0, 8);
-    const char *msg = arena + off;
+    size_t off = 0;     // the very same address as the previous message
+    memcpy(g_arena + off, rb.data(), rb.size());
+    memset(g_arena + off + rb.size(), 0, 8);
+    const char *msg = g_arena + off;
     std::string desc = desc0 + " [same buffer as the previous message, arguments read in another order]";
     count("decode.reused_buffer_messages");
     Rng r(seed);
     size_t n = m.vals.size();
     // order: descending, or a random start index then wrap around, or fully random picks
-    int how = (int)r.below(3);
-    size_t start = (size_t)r.below(n);
+    int how = (int)r.below(4);
+    size_t start = how == 3 ? (g_arena_last + 1) % n : (size_t)r.below(n);   // how 3: continue right behind the last argument read from the previous message
     for(size_t k = 0; k < n; ++k) {
-        size_t i = how == 0 ? n - 1 - k : how == 1 ? (start + k) % n : (size_t)r.below(n);
+        size_t i = how == 0 ? n - 1 - k : (how == 1 || how == 3) ? (start + k) % n : (size_t)r.below(n);
         char t = rtosc_type(msg, i);
         if(t != m.vals[i].type) { fail("type_by_index", tags, desc, fmt("idx %zu '%c'", i, t), std::string(1, m.vals[i].type)); return; }
         rtosc_arg_t a = rtosc_argument(msg, i);
@@ -137,6 +138,14 @@ static void check_history_independence(const Msg &m, const ref::bytes &rb, const
         if(!val_eq_arg(t, m.vals[i], a, msg, rb.size(), why)) { fail("argument_by_index", tags, desc, fmt("idx %zu: ", i) + why, "bit-identical value"); return; }
         count("decode.args_reused_buffer");
     }
+    g_arena_n = n;
+}
+// last accessor call of a case: one argument of the message in the reused buffer
+static void history_probe_end(uint64_t seed)
+{
+    if(!g_arena_n) return;
+    g_arena_last = (size_t)((seed >> 9) % g_arena_n);
+    (void)rtosc_argument(g_arena, (unsigned)g_arena_last);
 }
 
 static void check_encode_one(const char *which, size_t ret, const Heap &h, const ref::bytes &rb, const std::string &desc,
@@ -192,8 +201,9 @@ static void run_msg(const Msg &m)
         if(mixed) t2.push_back("valueless_before_value");
         check_encode_one("avmessage", ret, h, rb, desc, t2);
     }
-    check_decode(m, rb, desc, tags);
     uint64_t hh = hash_bytes(rb.data(), rb.size());
+    check_history_independence(m, rb, desc, tags, hh);      // first accessor calls of this case (see there)
+    check_decode(m, rb, desc, tags);
     check_decode(m, rb, desc, tags, 1 + hh % 3);
     // encoding into a destination that is not 4-byte aligned
     {
@@ -204,7 +214,7 @@ static void run_msg(const Msg &m)
         if(ret != rb.size()) fail("amessage_return", tags, desc + " [unaligned destination]", std::to_string(ret), std::to_string(rb.size()));
         else if(memcmp(h.p + shift, rb.data(), rb.size())) fail("amessage_bytes", tags, desc + " [unaligned destination]", hexs(h.p + shift, rb.size() > 96 ? 96 : rb.size()), "reference encoding");
     }
-    check_history_independence(m, rb, desc, tags, hh);
+    history_probe_end(hh);
 }
 
 // arg-val lists with compressed runs must encode like their expansion
@@ -215,10 +225,12 @@ static void run_ranges(Rng &r)
     std::vector<rtosc_arg_val_t> comp, flat;
     int groups = (int)r.range(1, 5);
     for(int g = 0; g < groups; ++g) {
-        char t = "ihc"[r.below(3)];
+        char t = "ihcihcTFNI"[r.below(10)];     // also repetitions of the value-less tags
+        bool valueless = strchr("TFNI", t) != 0;
+        if(valueless) count("ranges.valueless_groups");
         int n = (int)r.range(1, 7);
-        int64_t start = t == 'c' ? r.range(32, 60) : r.range(-1000, 1000);
-        int64_t delta = r.chance(0.5) ? 0 : r.range(-5, 5);
+        int64_t start = valueless ? (t == 'T') : t == 'c' ? r.range(32, 60) : r.range(-1000, 1000);
+        int64_t delta = (valueless || r.chance(0.5)) ? 0 : r.range(-5, 5);
         if(t == 'c' && delta < 0) delta = -delta;
         bool compress = n >= 2 && r.chance(0.7);
         auto mk = [&](int64_t v) { rtosc_arg_val_t a; memset(&a, 0, sizeof a); a.type = t; if(t == 'h') a.val.h = v; else a.val.i = (int32_t)v; return a; };
@@ -237,7 +249,7 @@ static void run_ranges(Rng &r)
     }
     std::string addr = gen::gen_addr(r);
     std::string desc = "ranges addr=" + vis(addr) + " flat=";
-    for(auto &a : flat) desc += fmt("%c:%lld ", a.type, a.type == 'h' ? (long long)a.val.h : (long long)a.val.i);
+    for(auto &a : flat) desc += strchr("TFNI", a.type) ? fmt("%c ", a.type) : fmt("%c:%lld ", a.type, a.type == 'h' ? (long long)a.val.h : (long long)a.val.i);
     desc += fmt("(compressed to %zu slots)", comp.size());
     describe_case(desc);
     char b1[2048], b2[2048];
@@ -248,7 +260,7 @@ static void run_ranges(Rng &r)
     if(l1 != l2 || memcmp(b1, b2, l1)) fail("avmessage_range_expansion", {}, desc, "len " + std::to_string(l2) + " " + hexs(b2, l2 > 120 ? 120 : l2), "len " + std::to_string(l1) + " " + hexs(b1, l1 > 120 ? 120 : l1));
     // and the flat one must be the reference encoding
     Msg m; m.addr = addr;
-    for(auto &a : flat) { m.types += a.type; Val v; v.type = a.type; if(a.type == 'h') v.u64 = (uint64_t)a.val.h; else v.u32 = (uint32_t)a.val.i; m.vals.push_back(v); }
+    for(auto &a : flat) { m.types += a.type; Val v; v.type = a.type; if(a.type == 'h') v.u64 = (uint64_t)a.val.h; else if(!strchr("TFNI", a.type)) v.u32 = (uint32_t)a.val.i; m.vals.push_back(v); }
     ref::bytes rb = m.encode();
     if(l1 != rb.size() || memcmp(b1, rb.data(), l1)) fail("avmessage_bytes", {}, desc, hexdiff(b1, l1, rb), "reference encoding");
 }
